@@ -233,7 +233,8 @@ theorem onAppendEntries_term_le (n : Node) (t l : Nat) : n.term ≤ (onAppendEnt
     · simp only [h, if_true]; exact Nat.le_refl _
     · simp only [h, if_false]
       refine Nat.le_trans ?_ (followerOnAE_term_le _ t l)
-      simp
+      simp only [becomeFollower_term]
+      omega
 
 theorem becomeLeader_term (n : Node) : (becomeLeader n).term = n.term := by
   unfold becomeLeader; split <;> simp [updateVotedFor]
@@ -246,22 +247,16 @@ theorem finishElection_term_le (n : Node) (o : Outcome) (h : ∀ t, o = .higherT
 /-- the `D` part of the invariant alone: it needs no hypothesis except "no crash" -/
 def DInv (c : Cluster) : Prop := ∀ p, (c.proc p).up = false → Down (c.proc p)
 
-theorem bootNode_term_le (pr : Proc) (hd : Down pr) (hl : pr.startLearner = false) :
+theorem bootNode_term_le (pr : Proc) (hd : Down pr) :
     pr.node.term ≤ (bootNode pr.node.id pr.startLearner pr.image pr.node.lli pr.node.llt pr.node.pubs).term := by
   unfold Down at hd
   unfold bootNode
-  rw [hl]
   cases him : pr.image with
-  | none => rw [him] at hd; simp only [Bool.false_eq_true, if_false, Option.getD_none]; exact hd.1
-  | some h => rw [him] at hd; simp only [Bool.false_eq_true, if_false, Option.getD_some]; omega
+  | none => rw [him] at hd; simp only [Option.getD_none]; exact hd.1
+  | some h => rw [him] at hd; simp only [Option.getD_some]; omega
 
-/-- a step that is neither a crash nor the restart of a learner -/
-def NoReset (c : Cluster) : Label → Prop
-  | .crash _ => False
-  | .restart p => (c.proc p).startLearner = false
-  | _ => True
-
-theorem step_term_le (c : Cluster) (hd : DInv c) (l : Label) (hs : NoReset c l) (q : Nat) :
+/-- **every** step keeps or raises the term of every node (crashes and restarts included) -/
+theorem step_term_le (c : Cluster) (hd : DInv c) (l : Label) (q : Nat) :
     (c.proc q).node.term ≤ ((step c l).proc q).node.term := by
   have hn := step_node c l q
   unfold NodeStepL at hn
@@ -291,7 +286,7 @@ theorem step_term_le (c : Cluster) (hd : DInv c) (l : Label) (hs : NoReset c l) 
       obtain ⟨hq, hup, ho⟩ := hn
       rw [ho]
       subst hq
-      exact bootNode_term_le (c.proc q) (hd q hup) hs
+      exact bootNode_term_le (c.proc q) (hd q hup)
 
 theorem setNode_proc' (c : Cluster) (p : Nat) (n : Node) (q : Nat) :
     (c.setNode p n).proc q = if q = p then { c.proc p with node := n } else c.proc q := by
@@ -421,7 +416,7 @@ theorem step_proc_cases (c : Cluster) (l : Label) (hl : NodeOnly l) (q : Nat) :
   | crash _ => exact hl.elim
   | restart _ => exact hl.elim
 
-theorem dinv_step (c : Cluster) (hd : DInv c) (l : Label) (hs : ∀ p, l ≠ .crash p) : DInv (step c l) := by
+theorem dinv_step (c : Cluster) (hd : DInv c) (l : Label) : DInv (step c l) := by
   intro q hup
   by_cases hno : NodeOnly l
   · rcases step_proc_cases c l hno q with h | ⟨hup0, n', h⟩
@@ -439,7 +434,16 @@ theorem dinv_step (c : Cluster) (hd : DInv c) (l : Label) (hs : ∀ p, l ≠ .cr
           simp [Proc.stop, hup0, Down]
         · simp only [upd_other _ _ _ _ h] at hup ⊢; exact hd q hup
       · rename_i hr; rw [if_neg hr]; exact hd q hup
-    | crash p => exact absurd rfl (hs p)
+    | crash p =>
+      simp only [step] at hup ⊢
+      split at hup
+      · rename_i hr
+        rw [if_pos hr]
+        by_cases h : q = p
+        · subst h
+          simp [Proc.crash, hr, Down]
+        · simp only [upd_other _ _ _ _ h] at hup ⊢; exact hd q hup
+      · rename_i hr; rw [if_neg hr]; exact hd q hup
     | restart p =>
       simp only [step] at hup ⊢
       split at hup
